@@ -162,6 +162,17 @@ func c27Compare(c *an.Ctx, fn *ssa.Function, top bool) []string {
 		return func(v ssa.Value) bool { return len(set) > 0 && c25RootsIn(v, set) }
 	}
 	seqA, seqB := accessor(a, "Sequence"), accessor(b, "Sequence")
+	// sequence numbers cover the whole uint64 range: an operand converted to another integer type (int64, uint32, ...)
+	// before the comparison orders large numbers differently and is not a test of the sequence key
+	inSeq := func(set []ssa.Value) func(ssa.Value) bool {
+		return func(v ssa.Value) bool {
+			if !in(set)(v) {
+				return false
+			}
+			bt, ok := v.Type().Underlying().(*types.Basic)
+			return ok && bt.Kind() == types.Uint64
+		}
+	}
 	eolA, eolB := accessor(a, "Validity"), accessor(b, "Validity")
 
 	// library three-way comparisons of the keys act like single-key stages: cmp.Compare(seq(a), seq(b)),
@@ -174,9 +185,9 @@ func c27Compare(c *an.Ctx, fn *ssa.Function, top bool) []string {
 		ci := an.Callee(cv)
 		x, y := cv.Call.Args[0], cv.Call.Args[1]
 		switch {
-		case ci.Pkg == "cmp" && ci.Name == "Compare" && in(seqA)(x) && in(seqB)(y):
+		case ci.Pkg == "cmp" && ci.Name == "Compare" && inSeq(seqA)(x) && inSeq(seqB)(y):
 			stages["sequence"] = append(stages["sequence"], c27Stage{cv, []ssa.Value{cv}, nil, false})
-		case ci.Pkg == "cmp" && ci.Name == "Compare" && in(seqB)(x) && in(seqA)(y):
+		case ci.Pkg == "cmp" && ci.Name == "Compare" && inSeq(seqB)(x) && inSeq(seqA)(y):
 			stages["sequence"] = append(stages["sequence"], c27Stage{cv, []ssa.Value{cv}, nil, true})
 		case ci.Pkg == "time" && ci.Recv == "Time" && ci.Name == "Compare" && in(eolA)(x) && in(eolB)(y):
 			stages["validity"] = append(stages["validity"], c27Stage{cv, []ssa.Value{cv}, nil, false})
@@ -185,7 +196,7 @@ func c27Compare(c *an.Ctx, fn *ssa.Function, top bool) []string {
 		}
 	}
 	seq := c27Key{"sequence", func(want int) an.EdgeSet {
-		return c25RelEdges(fn, in(seqA), in(seqB), want, 0).Union(stageRel("sequence", want))
+		return c25RelEdges(fn, inSeq(seqA), inSeq(seqB), want, 0).Union(stageRel("sequence", want))
 	}}
 	eol := c27Key{"validity", func(want int) an.EdgeSet {
 		isA, isB := in(eolA), in(eolB)
@@ -913,6 +924,19 @@ func c27Scan(c *an.Ctx, fn *ssa.Function, cmpCall *ssa.Call, wrap *c27Wrap) {
 				return
 			}
 		}
+		// a loop counter that advances by more than one skips candidates
+		if idx, ok := recIdx(a1); ok {
+			if ph, isPhi := idx.(*ssa.Phi); isPhi {
+				for _, e := range ph.Edges {
+					if bo, isB := e.(*ssa.BinOp); isB && bo.Op == token.ADD && bo.X == ssa.Value(ph) {
+						if k, isK := an.ConstOf(bo.Y); isK && k.Kind() == constant.Int && !c25IsInt(1)(bo.Y) {
+							c.Bad("O2", "R-CMP", name, "loop runs while j < len(recs)", cmpCall.Pos(), "the scan's loop counter advances by "+k.ExactString()+" instead of 1: candidates are skipped and never compared")
+							return
+						}
+					}
+				}
+			}
+		}
 		c.Problem("undecided: %s: the second operand of compare is not recs[j] with j a unit-step loop counter (%s)", name, p.Pos(cmpCall.Pos()))
 		return
 	}
@@ -1366,6 +1390,35 @@ func c27Scan(c *an.Ctx, fn *ssa.Function, cmpCall *ssa.Call, wrap *c27Wrap) {
 		}
 		c.Check(takeOK, "O2", "R-CMP", name, "best "+st.kind+"=j only when result < 0", st.ph.Pos(), "candidate replaces the best "+st.kind+" only where the tie-broken result is < 0", "the candidate j replaces the current best "+st.kind+" on an edge where the (tie-broken) comparison result is not known to be < 0: the scan does not keep the maximum")
 		c.Check(keepOK, "O2", "R-CMP", name, "best "+st.kind+" kept only when result >= 0", st.ph.Pos(), "best "+st.kind+" kept only where the result is >= 0", "the current best "+st.kind+" is kept on an edge where the comparison result may be < 0 (or a tie is not broken by bytes): a better candidate is ignored (or only part of the best state is replaced)")
+	}
+	// ---- a short-cut return of a constant index k (nil error) lies where len(recs) > k is known
+	for _, r := range an.Returns(fn) {
+		if len(r.Results) != 2 || !an.IsNilConst(r.Results[1]) {
+			continue
+		}
+		kc, isK := an.ConstOf(r.Results[0])
+		if !isK || kc.Kind() != constant.Int {
+			continue
+		}
+		k, _ := constant.Int64Val(kc)
+		lenOfRecs := func(v ssa.Value) bool {
+			b, ok := c25RootBuiltin(v, "len")
+			return ok && (c25RootsIn(b.Call.Args[0], []ssa.Value{rParam}) || c25RootsIn(b.Call.Args[0], []ssa.Value{vals}))
+		}
+		okLen := an.EdgeSet{}
+		for cst := int64(0); cst <= k+2; cst++ {
+			if cst > k {
+				okLen = okLen.Union(c25RelEdges(fn, lenOfRecs, c25IsInt(cst), c25EQ, 0)).Union(c25RelEdges(fn, lenOfRecs, c25IsInt(cst), c25GE, 0))
+			}
+			if cst >= k {
+				okLen = okLen.Union(c25RelEdges(fn, lenOfRecs, c25IsInt(cst), c25GT, 0))
+			}
+		}
+		if k == 0 {
+			okLen = okLen.Union(c25RelEdges(fn, lenOfRecs, c25IsInt(0), c25NE, c25LT))
+		}
+		c.Check(k >= 0 && len(okLen) > 0 && an.GuardedBy(fn, nil, r, okLen), "O2", "R-CMP", name, "constant index returned only where it is in range", r.Pos(), fmt.Sprintf("index %d returned where len(recs) > %d is known", k, k),
+			fmt.Sprintf("the selection returns the constant index %d with a nil error on a path where the number of records is not known to exceed it: the index does not designate a record of the input", k))
 	}
 	// ---- return the best index at exit
 	nRet := 0
